@@ -2277,3 +2277,39 @@ def rule_g4(P):
     if n_other < 3:
         raise E5Error(f"G4: only {n_other} compile-pass callers of the panicking accessors found (7 counted by hand)")
     return findings, obl, {"g4_panicky_accessors": len(panicky), "g4_validation_calls": n_val, "g4_compile_calls": n_other}
+
+
+def rule_r15(P):
+    """'A job's declared reads cover what it reads': the read access of a backend glyph job is REWRITTEN by the scheduler after the
+    front-end glyph arrives (Workload::update_be_glyph_work), from the glyph's components - and the backend reads the component
+    glyphs of EVERY source, while GlyphOrderWork may still rewrite a glyph whose sources disagree.  Structural clause: the function
+    that derives those dependencies enumerates all sources of the glyph (Glyph::sources) and does not narrow to one instance
+    (Glyph::default_instance / source at a single location) - components that only a non-default master has would otherwise be
+    read without an ordering edge."""
+    from common import norm_fn
+    findings, obl = [], []
+    roots = [k for k in P.bodies if re.fullmatch(r"fontc::workload::\{impl#\d+\}::update_be_glyph_work", k)]
+    if len(roots) != 1:
+        raise E5Error(f"R15: Workload::update_be_glyph_work not found ({roots})")
+    root = roots[0]
+    fam = [root] + [k for k in P.bodies if k.startswith(root + "::") and "#promoted" not in k]
+    calls = []
+    for k in fam:
+        for blk in P.bodies[k]["blocks"]:
+            t = blk["t"]
+            if t["t"] == "call" and not blk.get("cl"):
+                kk = t["f"].get("k") or {}
+                calls.append(((kk.get("res") or kk.get("fn") or ""), t["l"], k))
+    glyph_calls = [(c, l, k) for c, l, k in calls if re.match(r"fontir::ir::\{impl#\d+\}::", c) and (P.bodies.get(c, {}).get("impl_self") or "").endswith("ir::Glyph")]
+    all_src = [x for x in glyph_calls if x[0].endswith("::sources")]
+    narrowing = [x for x in glyph_calls if re.search(r"::(default_instance|source|get_source|instance_at)$", x[0])]
+    ok = bool(all_src) and not narrowing
+    obl.append({"rule": "R15", "inst": f"update_be_glyph_work derives the backend glyph job's read access from every source of the glyph (Glyph methods called: "
+                                       f"{sorted({c.rsplit('::', 1)[-1] for c, _, _ in glyph_calls})})", "ok": ok})
+    if not ok:
+        what = f"calls Glyph::{narrowing[0][0].rsplit('::', 1)[-1]}" if narrowing else "never calls Glyph::sources"
+        findings.append({"rule": "R15", "key": f"R15|{norm_fn(root)}|{'narrow' if narrowing else 'no-sources'}",
+                         "msg": f"{root} {what}: the read access it writes for Be(GlyfFragment) is then derived from one instance only, so a component that only another master has (a stale "
+                                f"reference GlyphOrderWork later prunes, or a genuinely different composite) gets neither its Glyph dependency nor the GlyphOrder dependency, and the backend job "
+                                f"can read the glyph while GlyphOrderWork rewrites it", "loc": P.site_loc(root, (narrowing or [(0, P.bodies[root]['blocks'][0]['t']['l'], 0)])[0][1]), "detail": {}})
+    return findings, obl, {"r15_glyph_methods": len(glyph_calls)}
